@@ -422,29 +422,11 @@ Fixpoint reindex (groups : list N) (pos : nat) (idx len : list (N * nat)) : res 
       reindex r (pos + gl) (aset g pos idx) len
   end.
 
-(* SubgraphMerge::try_merge.  PRECONDITION: u0, v0 are keys. *)
-Definition sm_try_merge (s : sm) (u0 v0 : N) : res (sm * bool) :=
-  (* 0. representatives, short circuits *)
-  let '(uf1, u1) := uf_find (sm_uf s) u0 in
-  let '(uf2, v1) := uf_find uf1 v0 in
-  if N.eqb u1 v1 then ROk (with_uf s uf2, true) else
-  if match alookup u1 (sm_enemies s) with Some es => memN v1 es | None => false end
-  then ROk (with_uf s uf2, false) else
-  iu <- aget u1 (sm_idx s) ;;
-  iv <- aget v1 (sm_idx s) ;;
-  let '(u, v) := if Nat.ltb iu iv then (u1, v1) else (v1, u1) in
-  u_idx <- aget u (sm_idx s) ;; u_len <- aget u (sm_len s) ;;
-  v_idx <- aget v (sm_idx s) ;; v_len <- aget v (sm_len s) ;;
+(* steps 2 and 3 of try_merge (after the cycle check passed): union, predecessor / length /
+   enemy bookkeeping, window re-sort.  [uf3] is the union-find after the cycle check. *)
+Definition sm_merge_phase (s : sm) (u v : N) (lo hi : nat) (u_nodes v_nodes : list N) (uf3 : links)
+  : res (sm * bool) :=
   let order := sm_order s in
-  if Nat.ltb (length order) (u_idx + u_len) || Nat.ltb (length order) (v_idx + v_len)
-  then RPanic else                                                (* slice out of range *)
-  let u_nodes := slice order u_idx u_len in
-  let v_nodes := slice order v_idx v_len in
-  let lo := u_idx in
-  let hi := v_idx + v_len in
-  (* 1. cycle check.  fuel: every pop is a distinct key of sg_idx *)
-  '(found, uf3) <- cyc_loop s u v lo hi (S (length (sm_idx s))) [v] [v] uf2 ;;
-  if (found : bool) then ROk (with_uf s uf3, false) else
   (* 2. merge *)
   let '(uf4, new_root) := uf_union uf3 u v in
   if negb (N.eqb u new_root) then RPanic else                     (* debug_assert_eq!(u, _new_root) *)
@@ -479,6 +461,31 @@ Definition sm_try_merge (s : sm) (u0 v0 : N) : res (sm * bool) :=
       if negb (Nat.eqb hi pos) then RPanic else                   (* debug_assert_eq!(window.end, pos) *)
       ROk (mkSm preds2 order' idx2 len2 uf6 enemies2, true)
   end.
+
+(* SubgraphMerge::try_merge.  PRECONDITION: u0, v0 are keys. *)
+Definition sm_try_merge (s : sm) (u0 v0 : N) : res (sm * bool) :=
+  (* 0. representatives, short circuits *)
+  let '(uf1, u1) := uf_find (sm_uf s) u0 in
+  let '(uf2, v1) := uf_find uf1 v0 in
+  if N.eqb u1 v1 then ROk (with_uf s uf2, true) else
+  if match alookup u1 (sm_enemies s) with Some es => memN v1 es | None => false end
+  then ROk (with_uf s uf2, false) else
+  iu <- aget u1 (sm_idx s) ;;
+  iv <- aget v1 (sm_idx s) ;;
+  let '(u, v) := if Nat.ltb iu iv then (u1, v1) else (v1, u1) in
+  u_idx <- aget u (sm_idx s) ;; u_len <- aget u (sm_len s) ;;
+  v_idx <- aget v (sm_idx s) ;; v_len <- aget v (sm_len s) ;;
+  let order := sm_order s in
+  if Nat.ltb (length order) (u_idx + u_len) || Nat.ltb (length order) (v_idx + v_len)
+  then RPanic else                                                (* slice out of range *)
+  let u_nodes := slice order u_idx u_len in
+  let v_nodes := slice order v_idx v_len in
+  let lo := u_idx in
+  let hi := v_idx + v_len in
+  (* 1. cycle check.  fuel: every pop is a distinct key of sg_idx *)
+  '(found, uf3) <- cyc_loop s u v lo hi (S (length (sm_idx s))) [v] [v] uf2 ;;
+  if (found : bool) then ROk (with_uf s uf3, false) else
+  sm_merge_phase s u v lo hi u_nodes v_nodes uf3.
 
 (* SubgraphMerge::find / same_set *)
 Definition sm_find (s : sm) (k : N) : sm * N :=
